@@ -67,9 +67,11 @@ package model
 //@     cond(is(n, RootNode), as(n, RootNode).typ != nil,
 //@     cond(is(n, ScalarNode), as(n, ScalarNode).typ != nil && (as(n, ScalarNode).parent == nil || wfNode(as(n, ScalarNode).parent)),
 //@     cond(is(n, StructFieldNode), as(n, StructFieldNode).field != nil && wfNode(as(n, StructFieldNode).parent),
-//@     cond(is(n, StructMethodNode), as(n, StructMethodNode).method != nil && fnNRes(as(n, StructMethodNode).method) >= 1 && wfNode(as(n, StructMethodNode).container),
+//@     cond(is(n, StructMethodNode), as(n, StructMethodNode).method != nil && fnNRes(as(n, StructMethodNode).method) >= 1 &&
+//@          is(typeOfObj(as(n, StructMethodNode).method), *types.Signature) && as(typeOfObj(as(n, StructMethodNode).method), *types.Signature) != nil &&
+//@          wfNode(as(n, StructMethodNode).container),
 //@     cond(is(n, TypecastEntry), as(n, TypecastEntry).typ != nil && wfNode(as(n, TypecastEntry).inner),
-//@     cond(is(n, StringerEntry), wfNode(as(n, StringerEntry).inner),
+//@     cond(is(n, StringerEntry), stringTypeOf() != nil && wfNode(as(n, StringerEntry).inner),
 //@     cond(is(n, ConverterNode), as(n, ConverterNode).converter != nil && as(n, ConverterNode).converter.retType != nil && as(n, ConverterNode).converter.argType != nil && wfNode(as(n, ConverterNode).arg),
 //@          false)))))))
 //@
